@@ -327,6 +327,44 @@ def run(ctx):
                                 it["tag"], v, other["tag"], b0, b1), {"module": m["stem"], "item": it["tag"], "value": v, "write": w, "neighbour": other["tag"],
                                                                        "bytes_before": list(blk[it["pos"]:it["pos"] + 2]), "bytes_after": list(nb[it["pos"]:it["pos"] + 2])})
                             break
+    # ---- temperature items (a Word accessor subclass with its own setters): permission and path equality on the REAL subclass
+    from geckolib.driver import accessor as A
+    from geckolib.driver.spastruct import GeckoStructure
+    from geckolib.driver.async_spastruct import GeckoAsyncStructure
+    from geckolib.const import GeckoConstants as K
+    temp_items = [(m, it) for m in mods for it in m["items"] if it.get("temp") and it["pos"] + 2 <= 1024]
+    rng.shuffle(temp_items)
+    seen_rw = {}
+    for m, it in temp_items:
+        key = (it["rw"] is None)
+        if seen_rw.get(key, 0) >= (40 if ctx.thorough else 8):
+            continue
+        seen_rw[key] = seen_rw.get(key, 0) + 1
+        for units in ("C", "F"):
+            outs = {}
+            for mode in ("sync", "async"):
+                rec = Rec()
+                st = GeckoStructure(rec.sync) if mode == "sync" else GeckoAsyncStructure(rec.sync, rec.asyn)
+                st.set_status_block(bytes(1024))
+                tu = A.GeckoEnumStructAccessor(st, K.KEY_TEMP_UNITS, 1000, 0, ["F", "C"], None, 2, "ALL")
+                st.accessors = {K.KEY_TEMP_UNITS: tu}
+                blk = bytearray(1024)
+                blk[1000] = 1 if units == "C" else 0
+                st.set_status_block(bytes(blk))
+                a = A.GeckoTempStructAccessor(st, it["tag"], it["pos"], it["rw"])
+                st.accessors[it["tag"]] = a
+                outs[mode] = drive(st, a, mode, 25.0 if units == "C" else 77.0, rec)
+            ctx.count("temperature_permission_cases")
+            ctx.case(("temp_perm", m["stem"], it["tag"], units))
+            if it["rw"] is None and (outs["sync"] is not None or outs["async"] is not None):
+                ctx.fail("permission:temp:%s" % ("async" if outs["async"] is not None else "sync"), "read-only temperature item %s.%s accepted a write on the %s path: device write %r" % (
+                    m["stem"], it["tag"], "awaitable" if outs["async"] is not None else "blocking", outs["async"] or outs["sync"]),
+                    {"module": m["stem"], "item": it["tag"], "units": units, "writes": outs})
+                break
+            if it["rw"] is not None and outs["sync"] != outs["async"]:
+                ctx.fail("sync_async_differ:temp", "blocking and awaitable write paths of temperature item %s.%s emit different device writes: %r" % (m["stem"], it["tag"], outs),
+                         {"module": m["stem"], "item": it["tag"], "units": units, "writes": outs})
+                break
     for s in meta[:2] + meta[len(meta) // 2:len(meta) // 2 + 2]:
         ctx.sample({k: (v if k != "block" else v[:12]) for k, v in s.items()})
     res = ctx.coq_cases("corr", HEADER, exprs, shard=300)
